@@ -22,3 +22,9 @@
 ./tools_mut.py C11 network/mixins.py 'total = bool(msg_len % MAX_FRAG_SIZE) + int(msg_len / MAX_FRAG_SIZE)' 'total = 1 + int(msg_len / MAX_FRAG_SIZE)'
 ./tools_mut.py C11 network/structs.py '            msg_t & 0xFF,' '            msg_t,'
 ./tools_mut.py C11 network/mixins.py 'total = bool(msg_len % MAX_FRAG_SIZE) + int(msg_len / MAX_FRAG_SIZE)' 'total = (msg_len + MAX_FRAG_SIZE - 1) // MAX_FRAG_SIZE'
+./tools_mut.py C11 network/mixins.py '        if len(self.frame_buf.message) <= MAX_FRAG_SIZE:
+            result = self._rf24.send(' '        if len(self.frame_buf.message) < MAX_FRAG_SIZE:
+            result = self._rf24.send('
+./tools_mut.py C11 network/mixins.py '        if len(self.frame_buf.message) <= MAX_FRAG_SIZE:
+            result = self._rf24.send(' '        if not len(self.frame_buf.message) > MAX_FRAG_SIZE:
+            result = self._rf24.send('
